@@ -36,6 +36,8 @@ type Case interface {
 	Reach() []string    // probes describing what this case can exercise (evidence)
 	Sample(res *simpool.Result) any
 	ModelSize() (states, transitions int)
+	// SimCfg returns a simulator configuration this case insists on (nil: the engine's seeded choice).
+	SimCfg() map[string]any
 	// KnownFinding attributes a failure of this case to a listed finding ("" if none).
 	KnownFinding(kf *known.File, property string, v *Verdict) string
 }
@@ -206,6 +208,9 @@ func Run(spec Spec) int {
 				}
 				r := rng.New(spec.Seed, spec.Property, "simcfg", i)
 				cfg := spec.SimCfg(r)
+				if oc := c.SimCfg(); oc != nil {
+					cfg = oc
+				}
 				runs := make([]simpool.Run, spec.RunsPerCase)
 				for k := range runs {
 					runs[k] = simpool.Run{Seed: rng.Derive(spec.Seed, spec.Property, "tape", i, k)}
